@@ -38,6 +38,7 @@ func runC06(p *core.Prog, r *core.Report) {
 	c06R9(p, r, "C06.R9")
 	// the collection that Close runs does not interleave with a push of the same client: the sweep holds the layout mutex (shared with C08.R2)
 	c08R2(p, r, "C06.R10")
+	c06R11(p, r)
 }
 
 // c06R9: an entry without a name is not the entry of the empty tag. Where an entry's ref.name
@@ -1100,4 +1101,49 @@ func c06R8(p *core.Prog, r *core.Report) {
 	if n == 0 {
 		r.MissingAnchor(rule, "removals of index entries in scheme/ocidir")
 	}
+}
+
+// c06R11: a listing is the union of its pages, in whatever order the registry sends them. The merge
+// of a page into the listing does not compare tag names by order: registries page by creation time,
+// by natural version order, case-insensitively; a merge that skips what sorts before the last tag it
+// has (to drop repeats) silently loses real tags at page boundaries.
+func c06R11(p *core.Prog, r *core.Report) {
+	const rule = "C06.R11"
+	r.Rule(rule, "pages are merged without an order assumption: the function that appends a page to a tag listing (types/tag (*List).Append and what it calls in the package) makes no ordered comparison (<, <=, >, >=) of strings (removing repeats by equality is fine; by order it drops tags of registries that do not page byte-wise)", 1)
+	tl := p.Named("types/tag", "List")
+	var fn *ssa.Function
+	if tl != nil {
+		fn = p.MethodOf(tl, "Append")
+	}
+	if fn == nil {
+		r.MissingAnchor(rule, "types/tag.(*List).Append")
+		return
+	}
+	bad := ""
+	for _, f := range sortedFuncs(unitFuncs(fn, 2, nil)) {
+		if pk := core.FuncPkg(f); pk == nil || pk.Path() != modPath("types/tag") {
+			continue
+		}
+		for _, b := range f.Blocks {
+			for _, in := range b.Instrs {
+				bo, ok := in.(*ssa.BinOp)
+				if !ok {
+					continue
+				}
+				switch bo.Op {
+				case token.LSS, token.LEQ, token.GTR, token.GEQ:
+					if isStringType(bo.X.Type()) && isStringType(bo.Y.Type()) {
+						bad = p.Pos(bo.Pos())
+					}
+				}
+			}
+		}
+		core.Calls(f, func(c ssa.CallInstruction) {
+			if cal := core.Callee(c); cal != nil && (core.IsFunc(cal, "strings", "Compare") || core.IsFunc(cal, "cmp", "Compare")) {
+				bad = p.Pos(c.Pos())
+			}
+		})
+	}
+	r.Check(bad == "", rule, p.FuncName(fn), "order-free merge", p.Pos(fn.Pos()),
+		"tag names are compared by order at "+bad+" while a page is merged: what is kept depends on the order in which the registry returns its tags, and tags that sort before the end of the previous page are dropped")
 }
